@@ -100,7 +100,7 @@ namespace GeographicLib {
       if (k < 0)
         throw GeographicErr("Bad latitude degree letter in georef " + georef);
       lat1 = lat1 * tile_ + k;
-      if (prec1 > 0) {
+      if (len > baselen_) {
         if (georef.find_first_not_of(digits_, baselen_) != string::npos)
           throw GeographicErr("Non digits in trailing portion of georef "
                               + georef.substr(baselen_));
